@@ -93,13 +93,18 @@ func (ms *Modules) Parse(data, name string) error {
 		return err
 	}
 	for _, s := range ss {
-		n, err := buildASTWithTypeDict(s, ms.typeDict)
+		// Typedefs are registered while the AST is being built.  Keep them
+		// apart until the module has been accepted, so that a rejected
+		// module leaves none behind.
+		types := newTypeDictionary()
+		n, err := buildASTWithTypeDict(s, types)
 		if err != nil {
 			return err
 		}
 		if err := ms.add(n); err != nil {
 			return err
 		}
+		ms.typeDict.merge(types)
 	}
 	return nil
 }
